@@ -406,8 +406,9 @@ def sugar_models(decls, cs, limit=300000):
     total = 1
     for d in doms:
         total *= len(d)
-    if total > limit:
-        raise OverflowError
+        if total > limit:
+            # a large program: propagation first, enumeration of what stays open (OverflowError if that is still too much)
+            return dslgen.scalable_models(names, doms, cs, sugar_ev, "||", "&&", limit)
     out = []
     for combo in itertools.product(*doms):
         asg = dict(zip(names, combo))
@@ -614,6 +615,83 @@ def session_pairs(k):
 N_PAIR_SESSIONS = 16
 
 
+def session_bigint(k):
+    """Deterministic sessions whose facts are integers outside CPython's small-int cache (dslgen.bigint_session): every reply
+    of the external solver brings such a value as a fresh int object."""
+    s, bools, ints = dslgen.bigint_session(k)
+    return list(s.variables), list(s.constraints), "fixed-bigint"
+
+
+def bigint_keys(k, n):
+    ks = dslgen._bigint_specs()[k % dslgen.N_BIGINT][2]
+    return [True] * n if ks is None else [i in ks for i in range(n)]
+
+
+def session_large(kind, n):
+    """A large program with facts known by construction (dslgen.large_session): (variables, constraints, keys, facts, text)."""
+    s, facts, text = dslgen.large_session(kind, n)
+    return list(s.variables), list(s.constraints), list(s.is_answer_key), facts, text
+
+
+def loop_exchange_shape(log, vs, keys):
+    """Do the (description, reply) pairs of one plain-`sugar` Solver.solve() look like the documented refinement loop -- satisfiable
+    replies and one final unsatisfiable one, every description the previous one plus ONE more line, a disjunction with one
+    disjunct per answer key whose value was the same in all replies so far?  Returns None or what is odd.  (A cheap gate in
+    front of the Lean replay of thousand-variable exchanges: once the model's descriptions leave the recorded ones it runs its
+    loop to the end on its own, which takes minutes there.)"""
+    sat = ["UNSATISFIABLE" not in r.split("\n")[0] for _, r in log]
+    if not log:
+        return "no exchange"
+    if not sat[0]:
+        return None if len(log) == 1 else "calls after an UNSATISFIABLE first reply"
+    if sat[-1] or not all(sat[:-1]):
+        return f"reply pattern {['sat' if x else 'unsat' for x in sat]} (expected sat ... sat unsat)"
+    keynames = {vname(v) for v, k in zip(vs, keys) if k}
+    cand = None
+    for k in range(1, len(log)):
+        prev, cur = log[k - 1][0], log[k][0]
+        if not cur.startswith(prev + "\n") or "\n" in cur[len(prev) + 1:]:
+            return f"description #{k + 1} is not description #{k} plus one line"
+        vals = {}
+        for line in log[k - 1][1].split("\n")[1:]:
+            if len(line) > 2 and "\t" in line:
+                nm, val = line[2:].strip().split("\t")
+                vals[nm] = val
+        if cand is None:
+            cand = {nm: vals.get(nm) for nm in keynames}
+        else:
+            cand = {nm: v for nm, v in cand.items() if vals.get(nm) == v}
+        try:
+            added = read_sugar(cur[len(prev) + 1:])[1]
+        except Exception:
+            return f"line added in description #{k + 1} is not an S-expression"
+        if len(added) != 1 or not isinstance(added[0], list) or added[0][0] != "||" or len(added[0]) - 1 != len(cand):
+            return (f"the line added in description #{k + 1} has {len(added[0]) - 1 if added and isinstance(added[0], list) else '?'} "
+                    f"disjuncts, {len(cand)} answer keys are still candidates")
+    return None
+
+
+def driver_guarded(line, seconds=90):
+    """One op through the Lean driver in its own process, time-limited.  None = no answer in time."""
+    import subprocess
+    try:
+        p = subprocess.run([core.DRIVER], input=line + "\n", stdout=subprocess.PIPE, stderr=subprocess.PIPE, text=True, timeout=seconds)
+    except subprocess.TimeoutExpired:
+        return None
+    if p.returncode != 0:
+        raise RuntimeError("driver failed: " + p.stderr[-2000:])
+    return p.stdout.split("\n")[0]
+
+
+def e2e_large(rng, kind, n, name):
+    vs, cs, keys, facts, text = session_large(kind, n)
+    bad = _e2e(rng, vs, cs, keys, name, facts=facts)
+    if not bad:
+        return None
+    return Finding(bad[0] + ":large", f"large program [{kind}, n={n}: {text}]: {bad[1]}",
+                   {"large": [kind, n], "backend": name, "check": "e2e-large"})
+
+
 def gen_case(rng):
     r = rng.random()
     if r < 0.45:
@@ -773,7 +851,10 @@ def correspond(ctx):
         "the Java source, return value and every sol (value AND Python type) for well-formed replies (arbitrary totals, "
         "negative / 64-bit ints, unsat, decided subsets) and 20 kinds of malformed replies, and Solver.find_answer / "
         "Solver.solve end-to-end against a Python mock solver (refinement loop for plain sugar: every (description, reply) "
-        "exchanged is replayed through the Lean model); non-trivial = a description was captured and a sat/facts reply "
+        "exchanged is replayed through the Lean model); deterministic sessions with integer facts outside CPython's small-int "
+        "cache next to undetermined keys (dslgen.bigint_session) always end to end through plain sugar and one native backend; "
+        "LARGE constructed programs (513..1030 answer keys, facts known by construction) end to end through plain sugar and one "
+        "native backend: exchange shape, Lean replay, constructed facts; non-trivial = a description was captured and a sat/facts reply "
         "parsed; distinct by (kind, backend, description, reply)")
     ctx.extra["assumptions"] = [
         "No Sugar / csugar / enigma_csp / cspuz_core binary or module exists in the sandbox: the external solver is a "
@@ -796,10 +877,12 @@ def correspond(ctx):
 
     ncases = ctx.n(1500, 12000)
     many = [1001, 2300]
+    nfix = len(many) + N_PAIR_SESSIONS
     for ci in range(ncases):
         try:
             vs, cs, kind = (session_many(rng, many[ci]) if ci < len(many) else
-                            session_pairs(ci - len(many)) if ci < len(many) + N_PAIR_SESSIONS else gen_case(rng))
+                            session_pairs(ci - len(many)) if ci < nfix else
+                            session_bigint(ci - nfix) if ci < nfix + dslgen.N_BIGINT else gen_case(rng))
         except Exception as e:
             ctx.count("gen-error:" + core.err_name(e))
             continue
@@ -927,10 +1010,11 @@ def correspond(ctx):
             ctx.case({"kind": kind, "vars": vtxt, "keys": sx(keys), "description": ref_calls2[0][1][-120:],
                       "facts_reply": facts_reply, "sols": sx(ref_res2)}, (kind, ref_calls2[0][1], facts_reply))
         # ---- 4. end to end through the real Solver with a Python mock solver (positional ids only)
-        if positional and kind in ("dsl", "native-avc", "native-div") and rng.random() < 0.6:
-            skeys = rand_keys(rng, len(vs))
+        if positional and (kind == "fixed-bigint" or (kind in ("dsl", "native-avc", "native-div") and rng.random() < 0.6)):
+            skeys = bigint_keys(ci - nfix, len(vs)) if kind == "fixed-bigint" else rand_keys(rng, len(vs))
             decls = "(" + " ".join(exprio.pdecl(v) for v in vs) + ")"
-            for name in rng.sample(NAMES, 2) + (["sugar"] if rng.random() < 0.5 else []):
+            for name in (["sugar", rng.choice(NAMES[1:])] if kind == "fixed-bigint" else
+                         rng.sample(NAMES, 2) + (["sugar"] if rng.random() < 0.5 else [])):
                 for mode in ("find", "solve"):
                     log = []
                     try:
@@ -967,6 +1051,64 @@ def correspond(ctx):
                     if real[0] == "T":
                         ctx.case({"kind": "e2e-" + mode, "backend": name, "decls": decls, "constraints": cs_txt[:3],
                                   "keys": sx(skeys), "result": sx(real)}, ("e2e", mode, name, decls, " ".join(cs_txt), sx(skeys)))
+    # ---- 5. LARGE programs (hundreds of answer keys, facts known by construction) end to end: Solver.find_answer / Solver.solve
+    # with the reference protocol solver; every (description, reply) exchanged is replayed through the Lean model, and the
+    # sol fields are compared with the constructed facts
+    if not hasattr(ctx, "concrete"):
+        ctx.concrete = []
+    for lkind, n in dslgen.LARGE_CASES:
+        vs, cs, lkeys, facts, text = session_large(lkind, n)
+        cs_txt = pexprs(cs)
+        decls = "(" + " ".join(exprio.pdecl(v) for v in vs) + ")"
+        for name in ("sugar", rng.choice(NAMES[1:])):
+            for mode in ("find", "solve"):
+                log = []
+                calls, real = real_solver_run(name, vs, cs, lkeys, mode, make_mock_sugar(rng, log))
+                pairs = "(" + " ".join(f"({codes(d)} {codes(r)})" for d, r in log) + ")"
+                coherent = True
+                if mode == "solve":
+                    want = ["T", [sx(f) if k else "-" for f, k in zip(facts, lkeys)]]
+                    got = [real[0], [x if k else "-" for x, k in zip(real[1], lkeys)]] if real[0] == "T" else real
+                    if got != want:
+                        wrong = [i for i, (a, b) in enumerate(zip(got[1], want[1])) if a != b] if got[0] == "T" else []
+                        what = (f"solve({name}) on the large program [{lkind}, n={n}: {text}] with a correct external solver: " +
+                                (f"{len(wrong)} answer keys wrong, first: variable #{wrong[0]} ({vname(vs[wrong[0]])}): sol={got[1][wrong[0]]} "
+                                 f"but the exact fact is {want[1][wrong[0]]}; wrong positions {wrong[:6]}" if wrong else f"result {got[:1]}"))
+                        ctx.disagree("solver-solve-large:facts", backend=name, program=f"{lkind} n={n}", what=what)
+                        ctx.concrete.append(Finding("e2e:solve:large", what, {"large": [lkind, n], "backend": name, "check": "e2e-large"}))
+                        # the model is not asked to replay an exchange that already went wrong: once its descriptions leave the
+                        # recorded ones it runs its loop to the end on thousand-variable texts (minutes)
+                        coherent = False
+
+                def chk5(out, real=real, name=name, mode=mode, lkeys=lkeys, n=n, lkind=lkind, nex=len(log)):
+                    t = core.parse_sx(out)
+                    m = ["err", t[0][1]] if isinstance(t[0], list) else [t[0], list(t[1])]
+                    if mode == "solve" and name == "sugar" and real[0] == "T":
+                        m[1] = [x if k else "-" for x, k in zip(m[1], lkeys)]
+                        real = [real[0], [x if k else "-" for x, k in zip(real[1], lkeys)]]
+                    if m != real:
+                        diff = [(i, a, b) for i, (a, b) in enumerate(zip(real[1], m[1])) if a != b][:6] if real[0] == "T" and m[0] == "T" else []
+                        ctx.disagree(f"solver-{mode}-large", backend=name, program=f"{lkind} n={n}", exchanges=nex, real=real[0], model=m[0],
+                                     first_differences_index_real_model=diff)
+                if coherent and mode == "solve" and name == "sugar":
+                    odd = loop_exchange_shape(log, vs, lkeys)
+                    if odd:
+                        ctx.disagree("solver-solve-large:exchanges", backend=name, program=f"{lkind} n={n}", exchanges=len(log), what=odd)
+                        coherent = False
+                if coherent:
+                    line = (f"(sugar-find {decls} {pairs} " + " ".join(cs_txt) + ")" if mode == "find" else
+                            f"(sugar-solve {name} {decls} {sx(lkeys)} {pairs} " + " ".join(cs_txt) + ")")
+                    out = driver_guarded(line)
+                    if out is None:
+                        ctx.disagree(f"solver-{mode}-large:model-replay", backend=name, program=f"{lkind} n={n}", exchanges=len(log),
+                                     what="the Lean model, replaying the recorded exchange, does not finish in 90 s (normally < 1 s): "
+                                          "its descriptions left the recorded ones")
+                    else:
+                        chk5(out)
+                ctx.count(f"e2e-large:{mode}:{name}:exchanges={min(len(log), 4)}")
+                if real[0] == "T":
+                    ctx.case({"kind": "e2e-large-" + mode, "backend": name, "program": text, "exchanges": len(log)},
+                             ("e2e-large", mode, name, lkind, n))
     # the dispatch table as the compiled model sees it
     ask("(sugar-table)", lambda out: _check_table(ctx, out))
     ask("(sugar-format-unsat)", lambda out: decode(core.parse_sx(out)) == "s UNSATISFIABLE\n" or ctx.disagree(
@@ -1125,6 +1267,8 @@ def search(ctx, why):
                 vs, cs, kind = session_many(rng, [1001, 2300][it])
             elif it < 2 + N_PAIR_SESSIONS:
                 vs, cs, kind = session_pairs(it - 2)
+            elif it < 2 + N_PAIR_SESSIONS + dslgen.N_BIGINT:
+                vs, cs, kind = session_bigint(it - 2 - N_PAIR_SESSIONS)
             else:
                 vs, cs, kind = session_dsl(rng) if r < 0.5 else session_native(rng) if r < 0.75 else session_custom(rng)
         except Exception:
@@ -1132,7 +1276,8 @@ def search(ctx, why):
         if not _distinct_ids(vs):
             continue
         cs_txt = pexprs(cs)
-        keys = [True] * len(vs) if kind == "many-variables" else rand_keys(rng, len(vs))
+        keys = ([True] * len(vs) if kind == "many-variables" else
+                bigint_keys(it - 2 - N_PAIR_SESSIONS, len(vs)) if kind == "fixed-bigint" else rand_keys(rng, len(vs)))
         base = {"vars": _vars_data(vs), "constraints": cs_txt, "keys": keys}
         for name in NAMES:
             ctx.count("search:" + name)
@@ -1166,10 +1311,19 @@ def search(ctx, why):
                 if bad:
                     add(bad[0], f"{name}: {bad[1]}", dict(base, backend=name, check="facts", facts=facts))
         # end to end with the Python mock solver vs brute force on the ORIGINAL trees
-        if kind in ("dsl", "native-avc", "native-div", "operator-pairs") and all(v.id == k for k, v in enumerate(vs)):
-            bad = _e2e(rng, vs, cs, keys, rng.choice(NAMES))
-            if bad:
-                add(bad[0], bad[1], dict(base, backend=bad[2], check="e2e"))
+        if kind in ("dsl", "native-avc", "native-div", "operator-pairs", "fixed-bigint") and all(v.id == k for k, v in enumerate(vs)):
+            # the deterministic large-value sessions: always through plain `sugar` (cspuz's own refinement loop) and one more
+            for name in (["sugar", rng.choice(NAMES[1:])] if kind == "fixed-bigint" else [rng.choice(NAMES)]):
+                bad = _e2e(rng, vs, cs, keys, name)
+                if bad:
+                    add(bad[0], bad[1] + f" -- vars={base['vars']} constraints={cs_txt}", dict(base, backend=bad[2], check="e2e"))
+    # large programs with facts known by construction, end to end (plain sugar and one backend with native deduction)
+    for kind, n in dslgen.LARGE_CASES:
+        for name in ("sugar", rng.choice(NAMES[1:])):
+            ctx.count("search:large:" + name)
+            f = e2e_large(rng, kind, n, name)
+            if f:
+                found.setdefault(f.signature, f)
     return list(found.values())
 
 
@@ -1187,11 +1341,16 @@ def _exact(vs, cs):
     return models
 
 
-def _e2e(rng, vs, cs, keys, name):
-    try:
-        models = _exact(vs, cs)
-    except Exception:
-        return None
+def _e2e(rng, vs, cs, keys, name, facts=None):
+    """find_answer(name) and solve(name) through the real Solver with the reference protocol solver vs the exact facts: by brute
+    force on the original trees, or -- for large satisfiable programs -- `facts` known by construction (one entry per variable)."""
+    if facts is not None:
+        models = [None]        # satisfiable by construction; only the count's truth value is used
+    else:
+        try:
+            models = _exact(vs, cs)
+        except Exception:
+            return None
     trees = [core.parse_sx(exprio.pexpr(c)) for c in cs]
     try:
         _, res = real_solver_run(name, vs, cs, keys, "find", make_mock_sugar(rng))
@@ -1217,17 +1376,28 @@ def _e2e(rng, vs, cs, keys, name):
     if (res[0] == "T") != bool(models):
         return "e2e:solve", f"solve({name}) returned {res[0]}, the program has {len(models)} models", name
     if models:
-        for v, k in zip(vs, keys):
+        for pos, (v, k) in enumerate(zip(vs, keys)):
             if k:
-                vals = {m[vname(v)] for m in models}
-                want = vals.pop() if len(vals) == 1 else None
+                if facts is not None:
+                    want = facts[pos]
+                else:
+                    vals = {m[vname(v)] for m in models}
+                    want = vals.pop() if len(vals) == 1 else None
                 if v.sol != want or type(v.sol) is not type(want):
-                    return "e2e:solve", f"solve({name}): key {vname(v)}.sol = {v.sol!r}, exact fact {want!r} (keys {keys})", name
+                    where = (f"keys {keys}" if len(keys) <= 40 else
+                             f"variable #{pos}, the {sum(1 for x in keys[:pos] if x) + 1}th of {sum(1 for x in keys if x)} answer keys")
+                    return "e2e:solve", f"solve({name}): key {vname(v)}.sol = {v.sol!r}, exact fact {want!r} ({where})", name
     return None
 
 
 def replay(ctx, data):
     rng = ctx.rng
+    if data.get("check") == "e2e-large":
+        for _ in range(3):
+            f = e2e_large(rng, data["large"][0], data["large"][1], data.get("backend", "sugar"))
+            if f:
+                return f
+        return None
     if "vars" not in data:
         return None
     vs, cs = build_case(data)
